@@ -767,6 +767,11 @@ func checkC16(c *core.Ctx) {
 		}
 		return true
 	})
+	// `readonly` may be dealt with by remembering the kind of the previous
+	// token and testing it where the struct is formatted
+	if readonlyDerived(info, ff, nil) {
+		fmtKinds["tokenKindReadOnly"] = true
+	}
 	var ks []string
 	for k := range recordKinds {
 		ks = append(ks, k)
@@ -866,7 +871,7 @@ func checkC16(c *core.Ctx) {
 
 	// ---- R3 repetition
 	if pf, fmtf := p.FuncDecl(pkg, "readFieldType"), p.FuncDecl(pkg, "formatType"); pf != nil && fmtf != nil {
-		loops := func(fd *ast.FuncDecl) bool {
+		ownLoop := func(fd *ast.FuncDecl) bool {
 			found := false
 			ast.Inspect(fd.Body, func(n ast.Node) bool {
 				if f, ok := n.(*ast.ForStmt); ok && mentionsIdent(f, "tokenKindOpenSquare") {
@@ -876,6 +881,27 @@ func checkC16(c *core.Ctx) {
 			})
 			return found
 		}
+		// the loop may sit in a helper of the package that the function calls
+		// (appendArraySuffixes(tr, …)): such a call is the loop
+		suffixFns := map[types.Object]bool{}
+		for fn, d := range p.AllDecls() {
+			if p.Owner(fn) == pkg && d.Body != nil && d != fmtf && d != pf && ownLoop(d) {
+				suffixFns[fn] = true
+			}
+		}
+		callsLoop := func(n ast.Node) bool {
+			found := false
+			ast.Inspect(n, func(k ast.Node) bool {
+				if call, ok := k.(*ast.CallExpr); ok {
+					if cal := load.Callee(pkg.TypesInfo, call); cal != nil && suffixFns[cal] {
+						found = true
+					}
+				}
+				return !found
+			})
+			return found
+		}
+		loops := func(fd *ast.FuncDecl) bool { return ownLoop(fd) || callsLoop(fd.Body) }
 		// every way out of formatType passes the postfix loop
 		early := 0
 		var loopPos token.Pos
@@ -886,7 +912,23 @@ func checkC16(c *core.Ctx) {
 			return true
 		})
 		ast.Inspect(fmtf.Body, func(n ast.Node) bool {
-			if r, ok := n.(*ast.ReturnStmt); ok && (loopPos == 0 || r.Pos() < loopPos) {
+			blk, ok := n.(*ast.BlockStmt)
+			var list []ast.Stmt
+			if ok {
+				list = blk.List
+			} else if cc, isCC := n.(*ast.CaseClause); isCC {
+				list = cc.Body
+			}
+			for i, st := range list {
+				r, ok := st.(*ast.ReturnStmt)
+				if !ok || (loopPos != 0 && r.Pos() > loopPos) {
+					continue
+				}
+				// the loop as a helper: in the returned expression, or the
+				// statement just before the return
+				if callsLoop(r) || (i > 0 && callsLoop(list[i-1])) {
+					continue
+				}
 				early++
 			}
 			return true
@@ -1007,6 +1049,10 @@ func checkC16(c *core.Ctx) {
 		}
 		return true
 	})
+	// or the marker is derived: ro := <kind of the previous token> == tokenKindReadOnly
+	if readonlyDerived(info, ff, passed) {
+		raised = true
+	}
 	if len(passed) == 0 {
 		c.Undecide("format does not call formatStruct with a boolean variable: how the readonly marker travels is not recognised")
 	} else {
@@ -1903,4 +1949,46 @@ func outputUntouched(c *core.Ctx, p *load.Prog) {
 	}
 	c.Count("formatter_output_handoffs", n)
 	c.Floor("formatter_output_handoffs", 1)
+}
+
+// readonlyDerived: some boolean handed to formatStruct (any, when passed is
+// nil) is defined as a comparison `<expr> == tokenKindReadOnly`.
+func readonlyDerived(info *types.Info, ff *ast.FuncDecl, passed map[types.Object]bool) bool {
+	if passed == nil {
+		passed = map[types.Object]bool{}
+		ast.Inspect(ff.Body, func(n ast.Node) bool {
+			if call, ok := n.(*ast.CallExpr); ok && wire.Canon(call.Fun) == "formatStruct" {
+				for _, a := range call.Args {
+					if id, ok := ast.Unparen(a).(*ast.Ident); ok {
+						if o := info.ObjectOf(id); o != nil {
+							if b, isB := o.Type().Underlying().(*types.Basic); isB && b.Kind() == types.Bool {
+								passed[o] = true
+							}
+						}
+					}
+				}
+			}
+			return true
+		})
+	}
+	found := false
+	ast.Inspect(ff.Body, func(n ast.Node) bool {
+		as, ok := n.(*ast.AssignStmt)
+		if !ok || len(as.Lhs) != len(as.Rhs) {
+			return true
+		}
+		for i, l := range as.Lhs {
+			id, ok := ast.Unparen(l).(*ast.Ident)
+			if !ok || !passed[info.ObjectOf(id)] {
+				continue
+			}
+			if be, ok := ast.Unparen(as.Rhs[i]).(*ast.BinaryExpr); ok && be.Op == token.EQL {
+				if wire.Canon(be.Y) == "tokenKindReadOnly" || wire.Canon(be.X) == "tokenKindReadOnly" {
+					found = true
+				}
+			}
+		}
+		return true
+	})
+	return found
 }
